@@ -25,6 +25,7 @@ import (
 	"sort"
 	"strings"
 
+	protov1 "github.com/golang/protobuf/proto"
 	"github.com/idena-network/idena-go/blockchain/types"
 	"github.com/idena-network/idena-go/common"
 	"github.com/idena-network/idena-go/core/state"
@@ -61,6 +62,9 @@ type runner struct {
 	key     *ecdsa.PrivateKey
 	mutated map[string]int // owner -> number of single-field changes exercised
 	leanMut int
+	rows    map[string]fieldRow // regenerated table by "<Type>.<Field>"
+	specs   map[string]*recSpec // derived flat-record specs (nil = not flat)
+	flat    []string
 }
 
 // genObject builds the object of a case deterministically from (type, profile, seed).
@@ -125,9 +129,17 @@ func (rn *runner) roundTrip(ti *typeInfo, x interface{}) rtResult {
 		return rtResult{bytes: b1, dec: y, sig: "C18:reencode-differs:" + T, detail: fmt.Sprintf("encode(decode(encode(x))) = %x, encode(x) = %x", clip(b2), clip(b1))}
 	}
 	if ti.Hashes != nil && !ti.SemanticOnly {
-		h1, h2 := safeHashes(ti, cloneObj(x)), safeHashes(ti, y)
+		xc := cloneObj(x)
+		h1, h2 := safeHashes(ti, xc), safeHashes(ti, y)
 		if h1 != h2 {
 			return rtResult{bytes: b1, dec: y, sig: "C18:hash-unstable:" + T, detail: "hashes before/after round trip: " + h1 + " / " + h2}
+		}
+		// xc now carries its memoised hashes/sender: the memo fields (allow-listed as pure caches) must not leak into the encoding
+		if ti.Recover != nil {
+			safeRecover(ti, xc)
+		}
+		if bc, st := callToBytes(xc, "ToBytes"); st != "" || !bytes.Equal(bc, b1) {
+			return rtResult{bytes: b1, dec: y, sig: "C18:cache-leaks-into-encoding:" + T, detail: "ToBytes differs once the memo fields are filled " + st}
 		}
 	}
 	return rtResult{bytes: b1, dec: y}
@@ -173,6 +185,70 @@ func (rn *runner) leanLines(ti *typeInfo, x interface{}, b1 []byte) (string, str
 		return "C18:not-a-" + ti.Proto + ":" + T, "ToBytes output does not parse as " + ti.Proto + ": " + err.Error()
 	}
 	rn.c.Line("enc "+ti.Proto+" "+msgTok(pm, true), "x"+fmt.Sprintf("%x", b1)+" "+msgTok(pm, false))
+	if reflect.ValueOf(x).Elem().Kind() == reflect.Struct {
+		rn.recLine(x, ti.Proto, b1)
+	}
+	bi := func(b *big.Int) string {
+		if b == nil {
+			return "nil"
+		}
+		return b.String()
+	}
+	// the hashed consensus objects: Lean builders of Model/CodecObjects.lean vs the real ToProto + Marshal, and the
+	// real Hash() must be Keccak of exactly these bytes
+	var hdr *types.Header
+	switch v := x.(type) {
+	case *types.Header:
+		hdr = v
+	case *types.Block:
+		hdr = v.Header
+	}
+	if hdr != nil && hdr.ProposedHeader != nil {
+		h := hdr.ProposedHeader
+		hb, err := protov1.Marshal(h.ToProto())
+		if err != nil {
+			return "C18:encode-fails:ProposedHeader", err.Error()
+		}
+		off := "-"
+		if h.OfflineAddr != nil {
+			off = hx.Hex(h.OfflineAddr[:])
+		}
+		rn.c.Line(fmt.Sprintf("phdr %s %d %d %s %s %s %s %d %s %s %s %s %s %d %s %s", hx.Hex(h.ParentHash[:]), h.Height, h.Time, hx.Hex(h.TxHash[:]),
+			hx.Hex(h.ProposerPubKey), hx.Hex(h.Root[:]), hx.Hex(h.IdentityRoot[:]), uint32(h.Flags), hx.Hex(h.IpfsHash), off, hx.Hex(h.TxBloom),
+			hx.Hex(h.BlockSeed[:]), bi(h.FeePerGas), h.Upgrade, hx.Hex(h.SeedProof), hx.Hex(h.TxReceiptsCid)), "x"+fmt.Sprintf("%x", hb))
+		rn.recLine(h, "ProtoBlockHeader.Proposed", hb)
+		if got := cloneObj(h).(*types.ProposedHeader).Hash(); got != common.Hash(crypto.Hash(hb)) {
+			return "C18:hash-not-of-encoding:ProposedHeader", "ProposedHeader.Hash() is not Keccak256 of the marshalled ToProto()"
+		}
+	}
+	if hdr != nil && hdr.EmptyBlockHeader != nil {
+		h := hdr.EmptyBlockHeader
+		hb, err := protov1.Marshal(h.ToProto())
+		if err != nil {
+			return "C18:encode-fails:EmptyBlockHeader", err.Error()
+		}
+		rn.c.Line(fmt.Sprintf("ehdr %s %d %s %s %d %s %d", hx.Hex(h.ParentHash[:]), h.Height, hx.Hex(h.Root[:]), hx.Hex(h.IdentityRoot[:]), h.Time,
+			hx.Hex(h.BlockSeed[:]), uint32(h.Flags)), "x"+fmt.Sprintf("%x", hb))
+		rn.recLine(h, "ProtoBlockHeader.Empty", hb)
+		if got := cloneObj(h).(*types.EmptyBlockHeader).Hash(); got != common.Hash(crypto.Hash(hb)) {
+			return "C18:hash-not-of-encoding:EmptyBlockHeader", "EmptyBlockHeader.Hash() is not Keccak256 of the marshalled ToProto()"
+		}
+	}
+	if v, ok := x.(*types.Transaction); ok {
+		to := "-"
+		if v.To != nil {
+			to = hx.Hex(v.To[:])
+		}
+		rlpFlag := 0
+		if v.UseRlp {
+			rlpFlag = 1
+		}
+		rn.c.Line(fmt.Sprintf("txfull %d %d %d %s %s %s %s %s %s %d", v.AccountNonce, v.Epoch, v.Type, to, bi(v.Amount), bi(v.MaxFee), bi(v.Tips),
+			hx.Hex(v.Payload), hx.Hex(v.Signature), rlpFlag), "x"+fmt.Sprintf("%x", b1))
+		if got := cloneObj(v).(*types.Transaction).Hash(); got != common.Hash(crypto.Hash(b1)) {
+			return "C18:hash-not-of-encoding:Transaction", "Transaction.Hash() is not Keccak256 of ToBytes()"
+		}
+	}
 	if ti.SigProto != "" {
 		sb, st := callToBytes(cloneObj(x), "ToSignatureBytes")
 		if st != "" {
@@ -192,16 +268,11 @@ func (rn *runner) leanLines(ti *typeInfo, x interface{}, b1 []byte) (string, str
 			if v.To != nil {
 				to = hx.Hex(v.To[:])
 			}
-			bi := func(b *big.Int) string {
-				if b == nil {
-					return "nil"
-				}
-				return b.String()
-			}
 			pl := hx.Hex(v.Payload)
 			rn.c.Line(fmt.Sprintf("txsig %d %d %d %s %s %s %s %s", v.AccountNonce, v.Epoch, v.Type, to, bi(v.Amount), bi(v.MaxFee), bi(v.Tips), pl),
 				"x"+fmt.Sprintf("%x", sb))
 		case *types.Vote:
+			rn.recLine(v.Header, "ProtoVote.Data", sb)
 			off := 0
 			if v.Header.TurnOffline {
 				off = 1
@@ -233,12 +304,20 @@ func (rn *runner) checkObject(ti *typeInfo, prof profile, seed int64, maxMut int
 		rn.fail(res.sig, res.detail, cs)
 		return
 	}
-	if c.Distinct(fmt.Sprintf("%s:%x", T, crypto.Hash(res.bytes))) && len(res.bytes) > 0 {
+	// a node-local store whose encoder walks a Go map has no fixed byte order: keep the protocol deterministic
+	orderFree := ti.SemanticOnly && bigMap(reflect.ValueOf(x).Elem())
+	dk := res.bytes
+	if orderFree {
+		dk = []byte(describe(reflect.ValueOf(x).Elem(), 0))
+	}
+	if c.Distinct(fmt.Sprintf("%s:%x", T, crypto.Hash(dk))) && len(res.bytes) > 0 {
 		c.Rep.Distinct++
 	}
-	if sig, detail := rn.leanLines(ti, x, res.bytes); sig != "" {
-		rn.fail(sig, detail, cs)
-		return
+	if !orderFree {
+		if sig, detail := rn.leanLines(ti, x, res.bytes); sig != "" {
+			rn.fail(sig, detail, cs)
+			return
+		}
 	}
 	r0 := ""
 	if ti.Recover != nil {
@@ -315,11 +394,12 @@ func (rn *runner) checkObject(ti *typeInfo, prof profile, seed int64, maxMut int
 			rn.fail("C18:noncanonical:"+lf.owner, "changing "+lf.path+" ("+desc+") gives a semantically equal object with different bytes", mc)
 			continue
 		}
-		if !eqBytes && c.Distinct(fmt.Sprintf("%s:%x", T, crypto.Hash(res2.bytes))) {
+		orderFree2 := ti.SemanticOnly && bigMap(reflect.ValueOf(x2).Elem())
+		if !eqBytes && !orderFree2 && c.Distinct(fmt.Sprintf("%s:%x", T, crypto.Hash(res2.bytes))) {
 			c.Rep.Distinct++
 		}
 		c.Rep.Evaluations++
-		if rn.leanMut%5 == 0 || onlyLeaf != "" { // a fifth of the changed objects also go through the Lean model
+		if (rn.leanMut%5 == 0 || onlyLeaf != "") && !orderFree2 { // a fifth of the changed objects also go through the Lean model
 			if sig, detail := rn.leanLines(ti, x2, res2.bytes); sig != "" {
 				rn.fail(sig, detail, mc)
 				continue
@@ -382,6 +462,29 @@ func (rn *runner) checkObject(ti *typeInfo, prof profile, seed int64, maxMut int
 		c.Rep.Evaluations++
 	}
 	c.Rep.Evaluations++
+}
+
+// bigMap: does the object hold a Go map with more than one entry (whose iteration order is not fixed)?
+func bigMap(v reflect.Value) bool {
+	switch v.Kind() {
+	case reflect.Map:
+		return v.Len() > 1
+	case reflect.Ptr:
+		return !v.IsNil() && bigMap(v.Elem())
+	case reflect.Struct:
+		for i := 0; i < v.NumField(); i++ {
+			if bigMap(v.Field(i)) {
+				return true
+			}
+		}
+	case reflect.Slice:
+		for i := 0; i < v.Len(); i++ {
+			if bigMap(v.Index(i)) {
+				return true
+			}
+		}
+	}
+	return false
 }
 
 func clipStr(s string, n int) string {
@@ -508,7 +611,8 @@ func (rn *runner) convLines(n int) {
 	}
 }
 
-var pinnedSchemas = map[string]bool{"ProtoTransaction.Data": true, "ProtoVote.Data": true}
+var pinnedSchemas = map[string]bool{"ProtoTransaction.Data": true, "ProtoTransaction": true, "ProtoVote.Data": true,
+	"ProtoBlockHeader.Proposed": true, "ProtoBlockHeader.Empty": true}
 
 func (rn *runner) preamble() (*extractResult, error) {
 	c := rn.c
@@ -530,6 +634,7 @@ func (rn *runner) preamble() (*extractResult, error) {
 	}
 	c.Line("new", "ok")
 	for _, row := range res.Rows {
+		rn.rows[row.key()] = row
 		c.Line(row.opLine(), "ok")
 		if !row.ok() {
 			why := "is not written by any encoder / read back by any decoder through a common proto field"
@@ -562,6 +667,17 @@ func (rn *runner) preamble() (*extractResult, error) {
 	reg := map[string]bool{}
 	for _, ti := range registry {
 		reg[ti.Name] = true
+	}
+	owners, err := scanCodecOwners(repoRoot())
+	if err != nil {
+		return nil, err
+	}
+	c.Rep.Coverage["tobytes_frombytes_owners_in_repo"] = len(owners)
+	for _, ct := range owners {
+		if !reg[ct] && codecExempt[ct] == "" {
+			rn.fail("C18:unregistered-encodable-type:"+ct, "type "+ct+" has a ToBytes/FromBytes method but is neither in the harness registry nor exempt (its round trip is unchecked)",
+				c18case{Kind: "registry", Type: ct})
+		}
 	}
 	for _, ct := range res.CodecTypes {
 		if !reg[ct] {
@@ -608,7 +724,7 @@ func profByName(n string) profile {
 
 func init() {
 	hx.Register("C18", func(c *hx.Ctx) error {
-		rn := &runner{c: c, key: testKey(1), mutated: map[string]int{},
+		rn := &runner{c: c, key: testKey(1), mutated: map[string]int{}, rows: map[string]fieldRow{}, specs: map[string]*recSpec{},
 			rules: &semRules{skip: map[string]bool{},
 				// a proposal without block decodes as a proposal with an empty block; both are !IsValid (types.go:1156,1168)
 				zeroIsNil: map[string]bool{"BlockProposal.Block": true},
@@ -655,7 +771,7 @@ func init() {
 		rn.convLines(c.Scale(60, 3000))
 		rn.utf8Probe()
 		rn.goldenVectors()
-		perType := c.Scale(25, 150) // random-profile objects per type (besides the 4 fixed profiles)
+		perType := c.Scale(25, 250) // random-profile objects per type (besides the 4 fixed profiles)
 		maxMut := c.Scale(40, 120)
 		for i := range registry {
 			ti := &registry[i]
@@ -675,7 +791,7 @@ func init() {
 			}
 		}
 		descs := allMessageDescs()
-		nw := c.Scale(30, 300)
+		nw := c.Scale(30, 500)
 		for _, md := range descs {
 			for k := 0; k < nw; k++ {
 				rn.wireCase(shortName(md), c.Rng.Int63())
@@ -683,17 +799,14 @@ func init() {
 		}
 		// per-field census of what the single-field changes reached
 		var never []string
-		for k, skip := range rn.rules.skip {
-			_ = skip
-			_ = k
-		}
-		rows, _ := extractTable(repoRoot())
-		for _, row := range rows.Rows {
-			if rn.mutated[row.key()] == 0 {
-				never = append(never, row.key())
+		for k := range rn.rows {
+			if rn.mutated[k] == 0 {
+				never = append(never, k)
 			}
 		}
 		sort.Strings(never)
+		sort.Strings(rn.flat)
+		c.Rep.Coverage["flat_record_types"] = rn.flat
 		c.Rep.Coverage["fields_never_changed_in_isolation"] = never
 		c.Rep.Coverage["fields_changed_in_isolation"] = len(rn.mutated)
 		return nil
